@@ -18,6 +18,22 @@ pub struct FixedTransaction {
 
 to_from_bytes!(FixedTransaction);
 
+/// Decodes `bytes` as exactly one CBOR item of type T. The raw bytes are stored and re-emitted
+/// verbatim, so anything after the item would corrupt the serialized transaction.
+fn deserialize_exact<T: Deserialize>(bytes: &[u8], name: &str) -> Result<T, JsError> {
+    let mut raw = Deserializer::from(std::io::Cursor::new(bytes));
+    let value = T::deserialize(&mut raw)?;
+    let consumed = raw.as_mut_ref().position() as usize;
+    if consumed != bytes.len() {
+        return Err(JsError::from_str(&format!(
+            "{}: {} trailing bytes after the CBOR item",
+            name,
+            bytes.len() - consumed
+        )));
+    }
+    Ok(value)
+}
+
 #[wasm_bindgen]
 impl FixedTransaction {
     pub fn new(
@@ -25,7 +41,7 @@ impl FixedTransaction {
         raw_witness_set: &[u8],
         is_valid: bool,
     ) -> Result<FixedTransaction, JsError> {
-        let body = TransactionBody::from_bytes(raw_body.to_vec())?;
+        let body = deserialize_exact::<TransactionBody>(raw_body, "raw_body")?;
         let mut witness_set = FixedTxWitnessesSet::from_bytes(raw_witness_set.to_vec())?;
         let tx_hash = TransactionHash::from(blake2b256(raw_body));
 
@@ -54,10 +70,10 @@ impl FixedTransaction {
         raw_auxiliary_data: &[u8],
         is_valid: bool,
     ) -> Result<FixedTransaction, JsError> {
-        let body = TransactionBody::from_bytes(raw_body.to_vec())?;
+        let body = deserialize_exact::<TransactionBody>(raw_body, "raw_body")?;
         let mut witness_set = FixedTxWitnessesSet::from_bytes(raw_witness_set.to_vec())?;
         let tx_hash = TransactionHash::from(blake2b256(raw_body));
-        let auxiliary_data = Some(AuxiliaryData::from_bytes(raw_auxiliary_data.to_vec())?);
+        let auxiliary_data = Some(deserialize_exact::<AuxiliaryData>(raw_auxiliary_data, "raw_auxiliary_data")?);
 
         let tag_state =
             has_transaction_set_tag_internal(&body, Some(witness_set.tx_witnesses_set_ref()))?;
@@ -79,7 +95,7 @@ impl FixedTransaction {
     }
 
     pub fn new_from_body_bytes(raw_body: &[u8]) -> Result<FixedTransaction, JsError> {
-        let body = TransactionBody::from_bytes(raw_body.to_vec())?;
+        let body = deserialize_exact::<TransactionBody>(raw_body, "raw_body")?;
         let tx_hash = TransactionHash::from(blake2b256(raw_body));
 
         let tag_state = has_transaction_set_tag_internal(&body, None)?;
@@ -143,7 +159,7 @@ impl FixedTransaction {
     }
 
     pub fn set_body(&mut self, raw_body: &[u8]) -> Result<(), JsError> {
-        let body = TransactionBody::from_bytes(raw_body.to_vec())?;
+        let body = deserialize_exact::<TransactionBody>(raw_body, "raw_body")?;
         self.body = body;
         self.body_bytes = raw_body.to_vec();
         Ok(())
@@ -179,7 +195,7 @@ impl FixedTransaction {
     }
 
     pub fn set_auxiliary_data(&mut self, raw_auxiliary_data: &[u8]) -> Result<(), JsError> {
-        let auxiliary_data = AuxiliaryData::from_bytes(raw_auxiliary_data.to_vec())?;
+        let auxiliary_data = deserialize_exact::<AuxiliaryData>(raw_auxiliary_data, "raw_auxiliary_data")?;
         self.auxiliary_data = Some(auxiliary_data);
         self.auxiliary_bytes = Some(raw_auxiliary_data.to_vec());
         Ok(())
